@@ -107,6 +107,17 @@ CHECKS = {
         technique="Coq proof (invariant + induction over schedules, refinement of handler state to history functions, simulation for erasure) + differential correspondence on a stepped asyncio loop",
         design="§4 C11",
     ),
+    "C15": dict(
+        text=("Coq theorems over all histories of SUBSCRIBE, renewal, UNSUBSCRIBE, variable assignments, clock advances, NOTIFY "
+              "completions in any order and key jumps, for any number of variables and subscribers: no clause of the executable "
+              "specification fails on the model of the (repaired) publisher code - initial event with key 0 and every evented "
+              "variable, consecutive keys with the 2^32-1 -> 1 wrap in N (constants regenerated from the source), bounded "
+              "staleness implying eventual consistency, moderation, renewal, silence of dead subscribers, refusal of unknown SIDs. "
+              "The same clauses are evaluated in Coq on the real code's observations from a virtual-time asyncio loop, model and "
+              "implementation compared step by step (exhaustive to depth 4 over a 12-operation alphabet in the thorough tier)."),
+        technique="Coq proof (transition system at loop-quiescence granularity, invariant relating model state to a response-derived spec state, induction over histories) + generated constants + differential correspondence in virtual time",
+        design="§4 C15",
+    ),
     "C16": dict(
         text=("Refinement theorem (Coq): for every operation sequence in the stated domain the model of "
               "CaseInsensitiveDict (two Python dicts per object, aliasing by replace) is observationally equal to a "
